@@ -399,6 +399,7 @@ func runShards(bin, id, tier string, n int, extra ...string) ([]ShardResult, err
 	defer os.RemoveAll(runDir)
 	res := make([]ShardResult, n)
 	errs := make([]error, n)
+	crashed := make([]bool, n)
 	var wg sync.WaitGroup
 	for i := 0; i < n; i++ {
 		wg.Add(1)
@@ -421,6 +422,26 @@ func runShards(bin, id, tier string, n int, extra ...string) ([]ShardResult, err
 			b, rerr := os.ReadFile(out)
 			if rerr != nil {
 				tail, _ := os.ReadFile(filepath.Join(runDir, fmt.Sprintf("shard-%d.err", i)))
+				if msg, frame, ok := crashInfo(tail); ok {
+					// the code under test killed the process (a panic in a goroutine of the
+					// server, or a fatal runtime error): re-run the shard in trace mode to
+					// learn which case was running, and report it as a violation
+					tr := filepath.Join(runDir, fmt.Sprintf("shard-%d.trace", i))
+					targs := append(append([]string{}, args...), "-trace", tr)
+					tc := exec.Command(bin, targs...)
+					tc.Dir = runDir
+					tc.Run()
+					cs, _ := os.ReadFile(tr)
+					if len(cs) == 0 {
+						cs = []byte(`"unknown (trace run recorded no case)"`)
+					}
+					res[i] = ShardResult{Property: id, Exhaustive: false, Counters: map[string]int64{"worker_crashes": 1},
+						Violations: []Violation{{Sig: id + "|process-crash|" + msg + "|in=" + frame,
+							Msg:    "the server process died while running this case: " + msg + " (in " + frame + "); a panic outside HandleCall's caller cannot be recovered by the connection handler",
+							Replay: json.RawMessage(cs)}}}
+					crashed[i] = true
+					return
+				}
 				if len(tail) > 4000 {
 					tail = tail[len(tail)-4000:]
 				}
@@ -442,6 +463,13 @@ func runShards(bin, id, tier string, n int, extra ...string) ([]ShardResult, err
 }
 
 func merge(rs []ShardResult) ShardResult {
+	// put a shard that finished normally first so that its metadata is used
+	for i := range rs {
+		if rs[i].Level != "" {
+			rs[0], rs[i] = rs[i], rs[0]
+			break
+		}
+	}
 	m := rs[0]
 	m.Shards = len(rs)
 	if m.Counters == nil {
@@ -478,6 +506,53 @@ func merge(rs []ShardResult) ShardResult {
 	}
 	m.Notes = notes
 	return m
+}
+
+// crashInfo extracts the panic / fatal error message and the innermost frame
+// that belongs to the repository (not the harness) from a dead worker's stderr.
+func crashInfo(stderr []byte) (msg, frame string, ok bool) {
+	lines := strings.Split(string(stderr), "\n")
+	start := -1
+	for i, l := range lines {
+		if strings.HasPrefix(l, "panic: ") || strings.HasPrefix(l, "fatal error: ") {
+			msg = strings.TrimSpace(l)
+			start = i
+			break
+		}
+	}
+	if start < 0 {
+		return "", "", false
+	}
+	if i := strings.Index(msg, " [recovered]"); i > 0 {
+		msg = msg[:i]
+	}
+	if len(msg) > 120 {
+		msg = msg[:120]
+	}
+	frame = "unknown"
+	for _, l := range lines[start:] {
+		l = strings.TrimSpace(l)
+		if strings.HasPrefix(l, "github.com/absfs/absnfs.") && !strings.Contains(l, "zz_verif") {
+			f := strings.TrimPrefix(l, "github.com/absfs/absnfs.")
+			if j := strings.Index(f, "("); j > 0 && !strings.HasPrefix(f, "(") {
+				f = f[:j]
+			} else if strings.HasPrefix(f, "(") {
+				if j := strings.Index(f[1:], "("); j > 0 {
+					f = f[:j+1]
+				}
+			}
+			// skip frames of harness functions (prefixed v / cNN)
+			if strings.HasPrefix(f, "v") && len(f) > 1 && f[1] >= 'A' && f[1] <= 'Z' {
+				continue
+			}
+			if len(f) > 3 && f[0] == 'c' && f[1] >= '0' && f[1] <= '9' {
+				continue
+			}
+			frame = f
+			break
+		}
+	}
+	return msg, frame, true
 }
 
 func loadFindings() []Finding {
@@ -605,7 +680,10 @@ func runCheck(id, tier string) int {
 		os.WriteFile(path, js, 0o644)
 		// confirm by replay (twice)
 		ok1, sig1, ok2, sig2 := true, nv.v.Sig, true, nv.v.Sig
-		if !strings.HasSuffix(nv.v.Sig, "|no-progress") { // a hang is not re-run
+		if strings.Contains(nv.v.Sig, "|process-crash|") {
+			ok1, sig1 = replayCrash(bin, id, path, nv.v.Sig)
+			ok2, sig2 = replayCrash(bin, id, path, nv.v.Sig)
+		} else if !strings.HasSuffix(nv.v.Sig, "|no-progress") { // a hang is not re-run
 			ok1, sig1 = replayOnce(bin, id, path)
 			ok2, sig2 = replayOnce(bin, id, path)
 		}
@@ -625,6 +703,16 @@ func runCheck(id, tier string) int {
 	fmt.Printf("%s %s: evaluations=%d distinct=%d states=%d transitions=%d exhaustive=%v known=%d new=%d wall=%.1fs\n",
 		id, tier, m.Evaluations, m.Distinct, m.States, m.Transitions, m.Exhaustive, len(knownHits), len(newOrder), time.Since(start).Seconds())
 	return exit
+}
+
+// replayCrash re-runs a case that killed the process and checks it dies the same way.
+func replayCrash(bin, id, path, wantSig string) (bool, string) {
+	cmd := exec.Command(bin, "-prop", id, "-replay", path, "-out", os.DevNull)
+	out, _ := cmd.CombinedOutput()
+	if msg, frame, ok := crashInfo(out); ok {
+		return true, id + "|process-crash|" + msg + "|in=" + frame
+	}
+	return false, "<no crash>"
 }
 
 func replayOnce(bin, id, path string) (bool, string) {
